@@ -10,8 +10,11 @@ from ..common import arr2bits, bits2arr, driver
 THEOREMS = '''integrate_spec integrate_linear integrate_nonneg decay_amplitudes_entries gammaEntry_eq
 decay_amplitudes_parsimonious single_spectrum_is_broadcast subset_is_slice trace_tensor_completeness
 neg_trace_cumulant infidelity_eq_neg_trace_cumulant infidelity_traceless_branch
-total_infidelity_nonneg pulse_correlations_sum_to_total '''.split()
-LEAN_MODULES = ['FFVerif.Props.C08']
+total_infidelity_nonneg pulse_correlations_sum_to_total
+infidelity_congr_cm infidelity_lipschitz_cm absIntegral_is_integrate infidelity_scaling_law
+infidelity_perm_opers infidelity_perm_opers_entries infidelity_traceless_noise_opers
+infidelity_branches_agree '''.split()
+LEAN_MODULES = ['FFVerif.Props.C08', 'FFVerif.Props.C08Inv']
 PINS = ['pinIntegrate', 'pinIdentityElementIndex', 'C08_infidelity_source_shape']
 GEN_SITES = ['einsum:numeric__get_integrand_', 'einsum:numeric_infidelity_0',
              'const:numeric.infidelity', 'const:numeric.calculate_decay_amplitudes']
